@@ -427,3 +427,16 @@ Proof.
   intros HR Hin. apply reachable_inv in HR.
   exact (Forall_In_pc _ _ _ (inv_pc _ _ HR) Hin).
 Qed.
+
+(* tie T: every return of load() holds the read lock again *)
+Lemma load_lock_balance_holds : load_lock_balance = true.
+Proof. vm_compute. reflexivity. Qed.
+
+(* the lock-balance invariant: a thread about to run a Reader method's deferred
+   RUnlock holds a read lock (so the RUnlock releases its own hold) *)
+Lemma lock_balance s ts x :
+  reachable false s ts -> In (L_RUnlockEnd x) ts -> 1 <= readers s /\ writer s = false.
+Proof.
+  intros HR Hin. apply reachable_inv in HR.
+  destruct (inv_holdsR _ _ _ HR Hin eq_refl) as (H1 & H2 & _). auto.
+Qed.
